@@ -105,7 +105,7 @@ def closure(model):
 
 
 def explore(item):
-    pi, ki, global_repo, timeout_ms = item
+    pi, ki, global_repo, timeout_ms, maxn = item
     from textx import metamodel_from_str
     from textx.exceptions import TextXError
     import textx.scoping.providers as P
@@ -113,13 +113,19 @@ def explore(item):
     two = PROVIDERS[pi] == 'two-languages'
     write_files(tmp, FILES2 if two else None)
     ctx = Ctx(timeout_ms, max_paths=50000)
-    D = [SymKey('d%d' % i) for i in range(2)]
-    G = [SymKey('g%d' % i) for i in range(2)]
-    VALS = ['v0', ('v', 1)]
+    D = [SymKey('d%d' % i) for i in range(maxn)]
+    G = [SymKey('g%d' % i) for i in range(maxn)]
+    VALS = ['v0', ('v', 1), 2.5][:maxn]
+
+    def count(c, what):
+        for k in range(maxn):
+            if c.branch(z3.Bool('%s_%d' % (what, k))):
+                return k
+        return maxn
 
     def path(c):
-        nd = 0 if c.branch(z3.Bool('declare_none')) else (1 if c.branch(z3.Bool('declare_one')) else 2)
-        ng = 0 if c.branch(z3.Bool('give_none')) else (1 if c.branch(z3.Bool('give_one')) else 2)
+        nd = count(c, 'declare')
+        ng = count(c, 'give')
         mm = metamodel_from_str(GRAMMAR, global_repository=global_repo)
         prov = PROVIDERS[pi]
         if prov == 'search-path':
@@ -250,7 +256,7 @@ def replay_concrete(pi, ki, global_repo, declared, given):
                                                                       glob_args={'recursive': True})})
         for d in declared:
             mm.model_param_defs.add(d, 'declared')
-        kw = {g: v for g, v in zip(given, ['v0', ('v', 1)])}
+        kw = {g: v for g, v in zip(given, ['v0', ('v', 1), 2.5])}
         should_accept = all(g in declared for g in kw)
         mainname = 'main.qa' if two else 'main.m'
         main = os.path.join(tmp, mainname)
@@ -288,7 +294,8 @@ def main():
     import textx.scoping as S
     import textx.scoping.providers as P
     chk = Check(PROP, 'exploration')
-    items = [(pi, ki, gr, 20000) for pi in range(len(PROVIDERS)) for ki in range(len(KINDS))
+    maxn = 2 if chk.tier == 'quick' else 3
+    items = [(pi, ki, gr, 20000, maxn) for pi in range(len(PROVIDERS)) for ki in range(len(KINDS))
              for gr in (False, True)]
     results = pmap(explore, items)
     chk.cov['functions_encoded'] = src_hash(
@@ -297,7 +304,7 @@ def main():
         MM.TextXMetaModel.internal_model_from_file, S.GlobalModelRepository.load_model,
         S.GlobalModelRepository.load_models_using_filepattern, S.GlobalModelRepository.load_model_using_search_path,
         P.ImportURI._load_referenced_models, P.GlobalRepo.load_models_in_model_repo)
-    chk.cov['bounds'] = {'declared_names': '0..2', 'given_names': '0..2', 'providers': PROVIDERS, 'load_kinds': KINDS,
+    chk.cov['bounds'] = {'declared_names': '0..%d' % maxn, 'given_names': '0..%d' % maxn, 'providers': PROVIDERS, 'load_kinds': KINDS,
                          'global_repository': [False, True], 'import_graph': 'main -> a -> sub/b -> a (cycle); two languages: main.qa -> mid.qb -> leaf.qa, main.qa -> same.qa'}
     chk.cov['stubs'] = ['parameter names are SymKey atoms (str subclass, constant hash, z3-decided equality)']
     chk.cov['outside_claim'] = ['more than two declared / given names', 'names equal to the built-in project_root',
